@@ -14,6 +14,21 @@
           limit), `number_too_large` (-1-n below INT64_MIN) and `skip` (a tag: outside the modelled fragment) (`wellformed_is_accepted`);
       fragments stated separately for all inputs: `model_head_is_spec_head`, `model_int_is_spec_int`, `model_definite_string_is_spec`,
       `model_rejects_reserved`, `model_truncated_head_is_eof`, `model_break_outside_indefinite_is_error`, `model_error_codes`.
+    * the real MessagePack decoder's logic — JV.Model.MsgpackParser, a functional transcription of msgpack_parser.hpp (the read_item
+      type-byte dispatch over all 256 type bytes, get_size, fixstr/str/bin with UTF-8 validation, ext and fixext with the three timestamp
+      layouts, begin/end_array/object with the nesting-depth check, the parse_mode state stack flattened into structural recursion) —
+      REFINES the MessagePack reference decoder JV.Spec.Msgpack on every byte string, every fuel and every max_nesting_depth
+      (`msgpack_parser_model_refines_spec`, `msgpack_parser_item_refines_spec`, relation `Model.MsgpackParser.Agrees`, value mapping
+      `toBV textKey false`; helper lemmas in JV/Proofs/MsgpackParser.lean):
+        - it accepts only well-formed input, and the value it yields is the value the specification assigns (`mp_model_value_is_spec_value`,
+          `mp_model_accepts_only_wellformed`, `mp_model_accepts_judged`);
+        - it rejects every ill-formed input (`mp_model_rejects_illformed`) and accepts every well-formed input the reference judges, except
+          for `max_nesting_depth_exceeded` (an implementation limit) and `skip` (a list element that is not a byte) (`mp_wellformed_is_accepted`);
+        - ext items and timestamps are accepted exactly when their type byte and whole payload are present; their VALUE (bytes tagged ext,
+          epoch_second integer, epoch_nano decimal text) is jsoncons' rendering, which the reference leaves unjudged;
+      fragments stated separately for all inputs: `mp_model_fixint_is_spec`, `mp_model_int_is_spec_int` (uint8..64, int8..64),
+      `mp_model_float_is_spec`, `mp_model_str_is_spec` (fixstr, str8/16/32), `mp_model_truncated_is_eof`, `mp_model_rejects_c1`,
+      `mp_model_timestamps`, `mp_model_error_codes`.
     * facts about the reference itself that the property names: `head_roundtrip`, `int_roundtrip`, `reserved_rejected`,
       `reserved_simple_rejected`, `truncated_head_rejected`, `half_sign_symmetric`, `half_normal`.
 
@@ -22,18 +37,30 @@
       (`bin mdec cbor`): identical error code, or identical value after the json_decoder's member-list normalisation; inputs with tags
       answer `skip`. Non-text map keys (rendered to text by basic_generic_to_json_visitor) are modelled for integers, booleans, null,
       undefined and byte strings and tied; the reference leaves them unjudged.
+    * model = real code (MessagePack): stream `msgpack-decoder-model` feeds the same bytes to the real decoder (`bin dec msgpack`) and to
+      the model (`bin mdec msgpack`): identical error code, or identical value (ext → bytes@ext, timestamps → i…@epoch_second /
+      s…@epoch_nano, non-string keys rendered by basic_generic_to_json_visitor) after the json_decoder's member-list normalisation, on the
+      MessagePack inputs judged against the reference plus ext items of every form and type, the three timestamp layouts (nanoseconds
+      beyond 999999999, negative seconds), non-string keys, nesting at the depth limit and under small limits, every width at its boundary
+      values, every strict prefix of those; `skip` only for float / container keys.
     * real code = reference: the real CBOR / MessagePack / UBJSON / BSON decoders against the reference decoders written in Lean from the
       specifications (JV.Spec.Cbor, JV.Spec.BinFormats) on reference encodings in every legal width and form, mutations, every strict
-      prefix, every 1–2 (thorough: sampled 3) byte string. The MessagePack, UBJSON and BSON decoders themselves are not modelled.
-  Fuel adequacy IS proved (JV.Proofs.CborParserFuel, stated in Props.C05.cbor_fuel_suffices): with `decode`'s fuel 2·|input|+2 the
-  model never answers `Fail.fuel`, because every item read consumes at least one byte.
+      prefix, every 1–2 (thorough: sampled 3) byte string. The UBJSON and BSON decoders themselves are not modelled.
+  Fuel adequacy IS proved for the CBOR model (JV.Proofs.CborParserFuel, stated in Props.C05.cbor_fuel_suffices): with `decode`'s fuel
+  2·|input|+2 the model never answers `Fail.fuel`, because every item read consumes at least one byte. For the MessagePack model it is
+  observed only (`Fail.fuel` would print `fuel`, which never equals a real outcome).
   NOT proved: the float32→double widening is taken as the IEEE function f32ToF64.
+  NOTED: the MessagePack decoder does not range-check the nanoseconds of timestamp 64 / 96 (the specification: "nanoseconds must not be
+  larger than 999999999"; msgpack_errc::invalid_timestamp is never raised): d7 ff ff ff ff fc 00 00 00 00 decodes to "1073741823"@epoch_nano.
+  The reference leaves timestamps unjudged, so this is recorded here and in the model, not judged by the check.
 -/
 import JV.Spec.Cbor
 import JV.Spec.BinFormats
 import JV.Model.Cbor
 import JV.Model.CborParser
 import JV.Proofs.CborParser
+import JV.Model.MsgpackParser
+import JV.Proofs.MsgpackParser
 import JV.Extracted.ErrorCodes
 namespace JV.Props.C07
 open JV Spec.Cbor Model.Cbor
@@ -360,5 +387,257 @@ example : toBV textKey (.map [(.uint 1, .uint 2)]) = none ∧ Spec.Cbor.decode [
 example : toBV renderKey (.map [(.bool true, .uint 2)]) = some (.map [([116, 114, 117, 101], .int 2 "")]) := by rfl   -- the adaptor renders the key `true`
 
 end parser_model
+
+/-! ### the real MessagePack decoder's logic (JV.Model.MsgpackParser) refines the MessagePack reference -/
+section msgpack_parser_model
+open Model.MsgpackParser Spec
+
+/-- THE REFINEMENT. For every byte string and every `max_nesting_depth`, the outcome of the msgpack_parser model and the outcome of the
+    MessagePack reference decoder are related by `Agrees (toBV textKey false)`:
+      model value v, rest  /  reference value w, rest2   ⇒  toBV textKey false v = some w ∧ rest = rest2   (same value, same bytes consumed)
+      model value v        /  reference unjudged          ⇒  toBV textKey false v = none    (v contains an ext item / timestamp, or a map key
+                                                                                              that is not a string)
+      model value          /  reference ill-formed        ⇒  impossible
+      model failure f      /  reference value             ⇒  f is max_nesting_depth_exceeded (an implementation limit) or skip (a list element
+                                                             that is not a byte)
+    where `toBV textKey false` is the documented value mapping: uint n ↦ int n, nint i ↦ int i, double / str / bin unchanged with the empty
+    tag, arrays and maps member-wise with string keys. -/
+theorem msgpack_parser_model_refines_spec (maxDepth : Nat) (bs : Bytes) :
+    Model.MsgpackParser.Agrees (toBV textKey false) (Model.MsgpackParser.decode maxDepth bs) (Spec.Msgpack.decode bs) :=
+  Model.MsgpackParser.decode_agrees maxDepth bs
+
+/-- the same at every fuel and nesting depth, for items in any position -/
+theorem msgpack_parser_item_refines_spec (maxDepth fuel depth : Nat) (s : Bytes) :
+    Model.MsgpackParser.Agrees (toBV textKey false) (Model.MsgpackParser.item maxDepth fuel depth s) (Spec.Msgpack.item fuel s) :=
+  (Model.MsgpackParser.agree_all maxDepth fuel).1 depth s
+
+/-- whenever both decoders produce a value it is the same value and the same number of bytes was consumed -/
+theorem mp_model_value_is_spec_value (maxDepth : Nat) (bs : Bytes) (v : Model.MsgpackParser.Item) (rest : Bytes) (w : Spec.Cbor.BV) (rest2 : Bytes)
+    (hm : Model.MsgpackParser.decode maxDepth bs = .ok v rest) (hs : Spec.Msgpack.decode bs = .ok w rest2) :
+    toBV textKey false v = some w ∧ rest = rest2 := by
+  have h := Model.MsgpackParser.decode_agrees maxDepth bs
+  simpa [hm, hs, Model.MsgpackParser.Agrees] using h
+
+/-- the model never accepts an ill-formed input -/
+theorem mp_model_accepts_only_wellformed (maxDepth : Nat) (bs : Bytes) (v : Model.MsgpackParser.Item) (rest : Bytes)
+    (hm : Model.MsgpackParser.decode maxDepth bs = .ok v rest) : Spec.Msgpack.decode bs ≠ .illformed := by
+  intro hs
+  have h := Model.MsgpackParser.decode_agrees maxDepth bs
+  simp [hm, hs, Model.MsgpackParser.Agrees] at h
+
+/-- an accepted input without ext items whose map keys are all strings is well-formed and decodes to exactly the value the
+    specification assigns -/
+theorem mp_model_accepts_judged (maxDepth : Nat) (bs : Bytes) (v : Model.MsgpackParser.Item) (rest : Bytes) (w : Spec.Cbor.BV)
+    (hm : Model.MsgpackParser.decode maxDepth bs = .ok v rest) (hv : toBV textKey false v = some w) : Spec.Msgpack.decode bs = .ok w rest := by
+  have h := Model.MsgpackParser.decode_agrees maxDepth bs
+  cases hs : Spec.Msgpack.decode bs <;> simp_all [Model.MsgpackParser.Agrees]
+
+/-- every ill-formed input is rejected -/
+theorem mp_model_rejects_illformed (maxDepth : Nat) (bs : Bytes) (hs : Spec.Msgpack.decode bs = .illformed) :
+    ∃ f, Model.MsgpackParser.decode maxDepth bs = .fail f := by
+  have h := Model.MsgpackParser.decode_agrees maxDepth bs
+  cases hm : Model.MsgpackParser.decode maxDepth bs with
+  | ok v rest => simp [hm, hs, Model.MsgpackParser.Agrees] at h
+  | fail f => exact ⟨f, rfl⟩
+
+/-- every input the reference accepts is accepted with the same value, unless the nesting limit intervenes (or an element is not a byte) -/
+theorem mp_wellformed_is_accepted (maxDepth : Nat) (bs : Bytes) (w : Spec.Cbor.BV) (rest : Bytes) (hs : Spec.Msgpack.decode bs = .ok w rest) :
+    (∃ v, Model.MsgpackParser.decode maxDepth bs = .ok v rest ∧ toBV textKey false v = some w) ∨
+    Model.MsgpackParser.decode maxDepth bs = .fail (.err .maxNestingDepthExceeded) ∨
+    Model.MsgpackParser.decode maxDepth bs = .fail .skip := by
+  have h := Model.MsgpackParser.decode_agrees maxDepth bs
+  cases hm : Model.MsgpackParser.decode maxDepth bs with
+  | ok v r =>
+    simp only [hm, hs, Model.MsgpackParser.Agrees] at h
+    exact Or.inl ⟨v, by rw [h.2], h.1⟩
+  | fail f =>
+    simp only [hm, hs, Model.MsgpackParser.Agrees] at h
+    cases f with
+    | skip => simp
+    | fuel => simp [Model.MsgpackParser.Fail.lenient] at h
+    | err e => cases e <;> simp_all [Model.MsgpackParser.Fail.lenient]
+
+/-- positive and negative fixint: the type byte is the value (0..127, and -32..-1 as `static_cast<int8_t>`), exactly as the specification says -/
+theorem mp_model_fixint_is_spec (maxDepth fuel depth b : Nat) (s : Bytes) :
+    (b ≤ 0x7f → Model.MsgpackParser.item maxDepth (fuel + 1) depth (b :: s) = .ok (.uint b) s ∧
+                Spec.Msgpack.item (fuel + 1) (b :: s) = .ok (.int b "") s) ∧
+    (0xe0 ≤ b ∧ b ≤ 0xff → Model.MsgpackParser.item maxDepth (fuel + 1) depth (b :: s) = .ok (.nint ((b : Int) - 256)) s ∧
+                Spec.Msgpack.item (fuel + 1) (b :: s) = .ok (.int ((b : Int) - 256) "") s) := by
+  constructor
+  · intro h
+    have : ¬ 256 ≤ b := by omega
+    simp [Model.MsgpackParser.item, Spec.Msgpack.item, this, h]
+  · intro h
+    have e : ¬ 256 ≤ b ∧ ¬ b ≤ 0x7f ∧ ¬ b ≤ 0x8f ∧ ¬ b ≤ 0x9f ∧ ¬ b ≤ 0xbf ∧ 0xe0 ≤ b ∧
+        ¬ b = 0xc0 ∧ ¬ b = 0xc1 ∧ ¬ b = 0xc2 ∧ ¬ b = 0xc3 ∧ ¬ b = 0xc4 ∧ ¬ b = 0xc5 ∧ ¬ b = 0xc6 ∧ ¬ (b = 0xc7 ∨ b = 0xc8 ∨ b = 0xc9) ∧ ¬ b = 0xca ∧ ¬ b = 0xcb ∧
+        ¬ b = 0xcc ∧ ¬ b = 0xcd ∧ ¬ b = 0xce ∧ ¬ b = 0xcf ∧ ¬ b = 0xd0 ∧ ¬ b = 0xd1 ∧ ¬ b = 0xd2 ∧ ¬ b = 0xd3 ∧ ¬ (0xd4 ≤ b ∧ b ≤ 0xd8) ∧ ¬ b = 0xd9 ∧ ¬ b = 0xda ∧
+        ¬ b = 0xdb ∧ ¬ b = 0xdc ∧ ¬ b = 0xdd ∧ ¬ b = 0xde ∧ ¬ b = 0xdf := by omega
+    simp [Model.MsgpackParser.item, Spec.Msgpack.item, e]
+
+/-- uint8/16/32/64 (0xcc + k) and int8/16/32/64 (0xd0 + k), k = 0..3: the 2^k bytes that follow, big-endian, unsigned resp. two's
+    complement — the model's value IS the specification's value, for every payload -/
+theorem mp_model_int_is_spec_int (maxDepth fuel depth k : Nat) (hk : k < 4) (s d r : Bytes) (ht : takeN (2 ^ k) s = some (d, r)) :
+    Model.MsgpackParser.item maxDepth (fuel + 1) depth ((0xcc + k) :: s) = .ok (.uint (Spec.Cbor.beVal d)) r ∧
+    Spec.Msgpack.item (fuel + 1) ((0xcc + k) :: s) = .ok (.int (Spec.Cbor.beVal d) "") r ∧
+    Model.MsgpackParser.item maxDepth (fuel + 1) depth ((0xd0 + k) :: s) = .ok (.nint (toSigned (8 * 2 ^ k) (Spec.Cbor.beVal d))) r ∧
+    Spec.Msgpack.item (fuel + 1) ((0xd0 + k) :: s) = .ok (.int (toSigned (8 * 2 ^ k) (Spec.Cbor.beVal d)) "") r := by
+  rcases (by omega : k = 0 ∨ k = 1 ∨ k = 2 ∨ k = 3) with e | e | e | e <;> subst e <;> simp at ht <;>
+    simp [Model.MsgpackParser.item, Spec.Msgpack.item, number, readBE_some ht, ht, asSigned_eq]
+
+/-- float32 (widened exactly) and float64: the bit pattern that follows -/
+theorem mp_model_float_is_spec (maxDepth fuel depth : Nat) (s d r : Bytes) :
+    (takeN 4 s = some (d, r) →
+      Model.MsgpackParser.item maxDepth (fuel + 1) depth (0xca :: s) = .ok (.dbl (Spec.Cbor.f32ToF64 (Spec.Cbor.beVal d))) r ∧
+      Spec.Msgpack.item (fuel + 1) (0xca :: s) = .ok (.dbl (Spec.Cbor.f32ToF64 (Spec.Cbor.beVal d)) "") r) ∧
+    (takeN 8 s = some (d, r) →
+      Model.MsgpackParser.item maxDepth (fuel + 1) depth (0xcb :: s) = .ok (.dbl (Spec.Cbor.beVal d)) r ∧
+      Spec.Msgpack.item (fuel + 1) (0xcb :: s) = .ok (.dbl (Spec.Cbor.beVal d) "") r) := by
+  constructor <;> intro ht <;> simp [Model.MsgpackParser.item, Spec.Msgpack.item, number, readBE_some ht, ht]
+
+/-- the outcome of a str item once its length `n` is known, on the model's and on the reference's side -/
+def strOutcomeModel (n : Nat) (s : Bytes) : Model.MsgpackParser.Res Model.MsgpackParser.Item :=
+  if s.length < n then .fail (.err .unexpectedEof)
+  else if Spec.Rfc8259.validUtf8 (s.take n) then .ok (.str (s.take n)) (s.drop n) else .fail (.err .invalidUtf8TextString)
+
+def strOutcomeSpec (n : Nat) (s : Bytes) : Spec.Cbor.Res Spec.Cbor.BV :=
+  if s.length < n then .illformed
+  else if Spec.Rfc8259.validUtf8 (s.take n) then .ok (.str (s.take n) "") (s.drop n) else .illformed
+
+theorem readStr_outcome (n : Nat) (s : Bytes) : readStr n s = strOutcomeModel n s := by
+  unfold readStr readSpan strOutcomeModel
+  by_cases hl : s.length < n
+  · simp [hl]
+  · cases hu : Spec.Rfc8259.validUtf8 (s.take n) <;> simp [hl, Model.MsgpackParser.badUtf8_eq, hu]
+
+/-- fixstr (0xa0 + n, n < 32) and str8/16/32 (0xd9 + k, a 2^k-byte big-endian length): exactly the specification's outcome — the `n` bytes
+    that follow (unexpected_eof / ill-formed if fewer remain), checked by `unicode_traits::validate`, which accepts exactly well-formed
+    UTF-8 (C02 `validator_is_rfc3629`) -/
+theorem mp_model_str_is_spec (maxDepth fuel depth : Nat) (s : Bytes) :
+    (∀ n, n < 32 →
+      Model.MsgpackParser.item maxDepth (fuel + 1) depth ((0xa0 + n) :: s) = strOutcomeModel n s ∧
+      Spec.Msgpack.item (fuel + 1) ((0xa0 + n) :: s) = strOutcomeSpec n s) ∧
+    (∀ k d r, k < 3 → takeN (2 ^ k) s = some (d, r) →
+      Model.MsgpackParser.item maxDepth (fuel + 1) depth ((0xd9 + k) :: s) = strOutcomeModel (Spec.Cbor.beVal d) r ∧
+      Spec.Msgpack.item (fuel + 1) ((0xd9 + k) :: s) = strOutcomeSpec (Spec.Cbor.beVal d) r) := by
+  constructor
+  · intro n hn
+    have e : ¬ 256 ≤ 0xa0 + n ∧ ¬ 0xa0 + n ≤ 0x7f ∧ ¬ 0xa0 + n ≤ 0x8f ∧ ¬ 0xa0 + n ≤ 0x9f ∧ 0xa0 + n ≤ 0xbf ∧
+        ¬ 0xa0 + n = 0xde ∧ ¬ 0xa0 + n = 0xdf ∧ ¬ 0xa0 + n = 0xdc ∧ ¬ 0xa0 + n = 0xdd := by omega
+    have e2 : (0xa0 + n) % 32 = n := by omega
+    have e3 : 0xa0 + n - 0xa0 = n := by omega
+    constructor
+    · simp only [Model.MsgpackParser.item, e, e2, if_true, if_false, or_self, readStr_outcome]
+    · simp only [Spec.Msgpack.item, e, e3, if_true, if_false, strOutcomeSpec, takeN]
+      by_cases hl : s.length < n <;> simp [hl]
+  · intro k d r hk ht
+    have hspec : ∀ n, (match takeN n r with
+        | none => Spec.Cbor.Res.illformed
+        | some (d, r) => if Spec.Rfc8259.validUtf8 d then Spec.Cbor.Res.ok (Spec.Cbor.BV.str d "") r else .illformed) = strOutcomeSpec n r := by
+      intro n
+      simp only [strOutcomeSpec, takeN]
+      by_cases hl : r.length < n <;> simp [hl]
+    rcases (by omega : k = 0 ∨ k = 1 ∨ k = 2) with e | e | e <;> subst e <;> simp at ht <;> constructor
+    · simp [Model.MsgpackParser.item, sized, getSize, readBE_some ht, readStr_outcome]
+    · simp [Spec.Msgpack.item, ht]; exact hspec _
+    · simp [Model.MsgpackParser.item, sized, getSize, readBE_some ht, readStr_outcome]
+    · simp [Spec.Msgpack.item, ht]; exact hspec _
+    · simp [Model.MsgpackParser.item, sized, getSize, readBE_some ht, readStr_outcome]
+    · simp [Spec.Msgpack.item, ht]; exact hspec _
+
+/-- truncation is never a value: the empty input, a number whose bytes are cut short, a str / bin / ext / array16/32 / map16/32 whose
+    length bytes are cut short are all `unexpected_eof` (containers: provided the nesting limit is not hit first) -/
+theorem mp_model_truncated_is_eof (maxDepth fuel depth : Nat) (s : Bytes) :
+    Model.MsgpackParser.item maxDepth (fuel + 1) depth [] = .fail (.err .unexpectedEof) ∧
+    (∀ k, k < 4 → s.length < 2 ^ k →
+      Model.MsgpackParser.item maxDepth (fuel + 1) depth ((0xcc + k) :: s) = .fail (.err .unexpectedEof) ∧
+      Model.MsgpackParser.item maxDepth (fuel + 1) depth ((0xd0 + k) :: s) = .fail (.err .unexpectedEof)) ∧
+    (s.length < 4 → Model.MsgpackParser.item maxDepth (fuel + 1) depth (0xca :: s) = .fail (.err .unexpectedEof)) ∧
+    (s.length < 8 → Model.MsgpackParser.item maxDepth (fuel + 1) depth (0xcb :: s) = .fail (.err .unexpectedEof)) ∧
+    (∀ k, k < 3 → s.length < 2 ^ k →
+      Model.MsgpackParser.item maxDepth (fuel + 1) depth ((0xd9 + k) :: s) = .fail (.err .unexpectedEof) ∧
+      Model.MsgpackParser.item maxDepth (fuel + 1) depth ((0xc4 + k) :: s) = .fail (.err .unexpectedEof) ∧
+      Model.MsgpackParser.item maxDepth (fuel + 1) depth ((0xc7 + k) :: s) = .fail (.err .unexpectedEof)) ∧
+    (∀ k, k < 2 → s.length < 2 * 2 ^ k → depth + 1 ≤ maxDepth →
+      Model.MsgpackParser.item maxDepth (fuel + 1) depth ((0xdc + k) :: s) = .fail (.err .unexpectedEof) ∧
+      Model.MsgpackParser.item maxDepth (fuel + 1) depth ((0xde + k) :: s) = .fail (.err .unexpectedEof)) := by
+  refine ⟨by simp [Model.MsgpackParser.item], ?_, ?_, ?_, ?_, ?_⟩
+  · intro k hk hl
+    rcases (by omega : k = 0 ∨ k = 1 ∨ k = 2 ∨ k = 3) with e | e | e | e <;> subst e <;> simp at hl <;>
+      simp [Model.MsgpackParser.item, number, readBE, hl]
+  · intro hl; simp [Model.MsgpackParser.item, number, readBE, hl]
+  · intro hl; simp [Model.MsgpackParser.item, number, readBE, hl]
+  · intro k hk hl
+    rcases (by omega : k = 0 ∨ k = 1 ∨ k = 2) with e | e | e <;> subst e <;> simp at hl <;>
+      simp [Model.MsgpackParser.item, sized, getSize, readBE, hl]
+  · intro k hk hl hd
+    have hdd : ¬ maxDepth < depth + 1 := by omega
+    rcases (by omega : k = 0 ∨ k = 1) with e | e <;> subst e <;> simp at hl <;>
+      simp [Model.MsgpackParser.item, getSize, readBE, hl, hdd]
+
+/-- 0xc1 ("never used") is `unknown_type` wherever an item is expected, whatever follows; the reference calls it ill-formed -/
+theorem mp_model_rejects_c1 (maxDepth fuel depth : Nat) (s : Bytes) :
+    Model.MsgpackParser.item maxDepth (fuel + 1) depth (0xc1 :: s) = .fail (.err .unknownType) ∧
+    Spec.Msgpack.item (fuel + 1) (0xc1 :: s) = .illformed := by
+  constructor <;> simp [Model.MsgpackParser.item, Spec.Msgpack.item]
+
+/-- timestamps (ext type -1 = 0xff): timestamp 32 (fixext4) is the unsigned seconds tagged epoch_second; timestamp 64 (fixext8) is
+    nanoseconds (upper 30 bits) and seconds (lower 34 bits); timestamp 96 (ext8, length 12) is uint32 nanoseconds then int64 seconds; the
+    last two are delivered as seconds·10^9 + nanoseconds tagged epoch_nano. Any other ext type with these payload sizes is a byte string
+    carrying the ext type. -/
+theorem mp_model_timestamps (maxDepth fuel depth : Nat) (s d r : Bytes) :
+    (takeN 4 s = some (d, r) →
+      Model.MsgpackParser.item maxDepth (fuel + 1) depth (0xd6 :: 0xff :: s) = .ok (.epochSec (Spec.Cbor.beVal d)) r) ∧
+    (takeN 8 s = some (d, r) →
+      Model.MsgpackParser.item maxDepth (fuel + 1) depth (0xd7 :: 0xff :: s) =
+        .ok (.epochNano (((Spec.Cbor.beVal d % 2 ^ 34 : Nat) : Int) * 1000000000 + ((Spec.Cbor.beVal d / 2 ^ 34 : Nat) : Int))) r) ∧
+    (∀ d2 r2, takeN 4 s = some (d, r) → takeN 8 r = some (d2, r2) →
+      Model.MsgpackParser.item maxDepth (fuel + 1) depth (0xc7 :: 12 :: 0xff :: s) =
+        .ok (.epochNano (toSigned 64 (Spec.Cbor.beVal d2) * 1000000000 + (Spec.Cbor.beVal d : Int))) r2) ∧
+    (∀ ty, ty < 255 → takeN 4 s = some (d, r) →
+      Model.MsgpackParser.item maxDepth (fuel + 1) depth (0xd6 :: ty :: s) = .ok (.ext ty d) r) := by
+  refine ⟨?_, ?_, ?_, ?_⟩
+  · intro ht
+    simp [Model.MsgpackParser.item, sized, getSize, readExt, readBE_some ht, readBE_one]
+  · intro ht
+    simp [Model.MsgpackParser.item, sized, getSize, readExt, readBE_some ht, readBE_one]
+  · intro d2 r2 ht ht2
+    simp [Model.MsgpackParser.item, sized, getSize, readExt, readBE_some ht, readBE_some ht2, readBE_one, asSigned_eq]
+  · intro ty hty ht
+    have : ¬ ty = 255 := by omega
+    simp [Model.MsgpackParser.item, sized, getSize, readExt, readSpan_some ht, readBE_one, this]
+
+/-- the model's error classes carry the numbers of `enum class msgpack_errc` as extracted from msgpack_error.hpp -/
+theorem mp_model_error_codes (e : Model.MsgpackParser.Err) : (e.name, e.code) ∈ JV.Extracted.msgpackErrc := by
+  cases e <;> decide
+
+/-! non-vacuity: kernel-evaluated runs of the model next to the reference -/
+example : Model.MsgpackParser.decode 1024 [0x93, 0xcc, 0xff, 0xd0, 0x80, 0xc0] = .ok (.arr [.uint 255, .nint (-128), .null]) [] := by rfl
+example : toBV textKey false (.arr [.uint 255, .nint (-128), .null]) = some (.arr [.int 255 "", .int (-128) "", .null]) := by rfl
+example : Spec.Msgpack.decode [0x93, 0xcc, 0xff, 0xd0, 0x80, 0xc0] = .ok (.arr [.int 255 "", .int (-128) "", .null]) [] := by rfl
+example : Model.MsgpackParser.decode 1024 [0x81, 0xa1, 0x61, 0xc4, 0x01, 0x07] = .ok (.map [(.str [0x61], .bytes [7])]) [] := by rfl
+example : Model.MsgpackParser.decode 1024 [0xc1] = .fail (.err .unknownType) := by rfl
+example : Model.MsgpackParser.decode 1024 [0xa1, 0xff] = .fail (.err .invalidUtf8TextString) := by rfl
+example : Spec.Msgpack.decode [0xa1, 0xff] = .illformed := by rfl
+example : Model.MsgpackParser.decode 1024 [0xcd, 0x01] = .fail (.err .unexpectedEof) := by rfl
+example : Model.MsgpackParser.decode 1024 [] = .fail (.err .unexpectedEof) := by rfl
+example : Model.MsgpackParser.decode 1024 [0xdc, 0x00] = .fail (.err .unexpectedEof) := by rfl
+example : Model.MsgpackParser.decode 2 [0x91, 0x91, 0x91, 0x00] = .fail (.err .maxNestingDepthExceeded) := by rfl
+example : Model.MsgpackParser.decode 2 [0x91, 0x91, 0x00] = .ok (.arr [.arr [.uint 0]]) [] := by rfl
+example : Model.MsgpackParser.decode 1024 [0xd3, 0x80, 0, 0, 0, 0, 0, 0, 0] = .ok (.nint (-9223372036854775808)) [] := by rfl
+example : Model.MsgpackParser.decode 1024 [0xcf, 0xff, 0xff, 0xff, 0xff, 0xff, 0xff, 0xff, 0xff] = .ok (.uint 18446744073709551615) [] := by rfl
+example : Model.MsgpackParser.decode 1024 [0xe0] = .ok (.nint (-32)) [] := by rfl
+example : Model.MsgpackParser.decode 1024 [0xd6, 0xff, 0, 0, 0, 7] = .ok (.epochSec 7) [] := by rfl
+example : Model.MsgpackParser.decode 1024 [0xd7, 0xff, 0, 0, 0, 4, 0, 0, 0, 2] = .ok (.epochNano 2000000001) [] := by rfl
+example : Model.MsgpackParser.decode 1024 [0xc7, 12, 0xff, 0, 0, 0, 1, 0xff, 0xff, 0xff, 0xff, 0xff, 0xff, 0xff, 0xff] = .ok (.epochNano (-999999999)) [] := by rfl
+example : Model.MsgpackParser.decode 1024 [0xd7, 0xff, 0xff, 0xff, 0xff, 0xfc, 0, 0, 0, 0] = .ok (.epochNano 1073741823) [] := by rfl   -- nanoseconds 2^30-1 > 999999999: accepted
+example : Model.MsgpackParser.decode 1024 [0xd4, 0x05, 0x61] = .ok (.ext 5 [0x61]) [] := by rfl
+example : toBV textKey false (.ext 5 [0x61]) = none ∧ Spec.Msgpack.decode [0xd4, 0x05, 0x61] = .unjudged := by constructor <;> rfl
+example : toBV renderKey true (.ext 5 [0x61]) = some (.bytes [0x61] "ext") := by rfl
+example : Model.MsgpackParser.decode 1024 [0x81, 0x01, 0x02] = .ok (.map [(.uint 1, .uint 2)]) [] := by rfl
+example : toBV textKey false (.map [(.uint 1, .uint 2)]) = none ∧ Spec.Msgpack.decode [0x81, 0x01, 0x02] = .unjudged := by constructor <;> rfl
+example : toBV renderKey true (.map [(.bool true, .uint 2)]) = some (.map [([116, 114, 117, 101], .int 2 "")]) := by rfl   -- the adaptor renders the key `true`
+example : Model.MsgpackParser.decode 1024 [0xd4, 0xff] = .fail (.err .unexpectedEof) := by rfl
+
+end msgpack_parser_model
 
 end JV.Props.C07
